@@ -42,6 +42,7 @@ from twisted.spread.pb import RemoteError, RemoteReference
 from netqasm.logging.glob import get_netqasm_logger
 
 from simulaqron.virtual_node.basics import quantumError, noQubitError, virtNetError
+from simulaqron.general.errors import SimUnsupportedError  # noqa: F401 (looked up by name in reraise_remote_error)
 from simulaqron.virtual_node.quantum import simulatedQubit
 from simulaqron.general.host_config import SocketsConfig
 from simulaqron.settings import simulaqron_settings, SimBackend
@@ -56,7 +57,7 @@ else:
     raise quantumError(f"Unknown backend {simulaqron_settings.sim_backend}")
 
 
-def reraise_remote_error(self, remote_err):
+def reraise_remote_error(remote_err):
     """
     This is a function re-raises the error thrown remotely
     :param remote_err: :obj:`twisted.spread.pb.RemoteError`
